@@ -546,7 +546,9 @@ __find_trno(const struct zif_s z[static 1U], stamp_t t, int min, int max)
 		return -1;
 	} else if (UNLIKELY(t < zif_trans(z, min))) {
 		return -1;
-	} else if (UNLIKELY(t > zif_trans(z, max))) {
+	} else if (UNLIKELY(t >= zif_trans(z, max))) {
+		/* at or after the last transition in question,
+		 * the bisection below would not terminate for equality */
 		return max - 1;
 	}
 
